@@ -215,6 +215,11 @@ def run_line(inp):
                 pass
             dev.p.faults = main_faults
             dev.n = 0
+            if "reseed" in pre:
+                # the device behind the link is no longer the one the prelude talked to (swapped, re-flashed):
+                # nothing the manager remembers about the first one may show in the answer
+                dev.s = build_device(dict(devspec, seed=pre["reseed"])).s
+                mode_before = dev.s.mode
             simdev.CTX.events = []
             simdev.CTX.recorded = []
             escaped.clear()
